@@ -204,8 +204,9 @@ func (jr *jpegReader) readAPP0() {
 
 // readAPP1
 func (jr *jpegReader) readAPP1() {
-	// APP1 Exif Marker
-	if isExifPrefix(jr.buf) {
+	// APP1 Exif Marker (with room for the 8-byte TIFF header: a shorter segment holds no Exif block,
+	// its "header" would be read from the bytes of the next segment)
+	if isExifPrefix(jr.buf) && int(jr.size) >= exifPrefixLength+8 {
 		if logInfo() {
 			jr.logMarker("APP1 Exif")
 		}
